@@ -220,7 +220,7 @@ def execute(doc: dict) -> dict:
     from moptipyapps.binpacking2d.packing_space import PackingSpace
 
     res = core.new_result()
-    inst = packgen.build_instance(doc["inst"])
+    inst = packgen.build_instance(doc["inst"], packgen.scenario_name(doc))
     W, H = int(inst.bin_width), int(inst.bin_height)
     items = [[int(v) for v in row] for row in inst]
     n_items = int(inst.n_items)
